@@ -76,8 +76,7 @@ def parserRun : Nat → M (Option Node)
       -- copy.copy(parserstate) is shallow: the flag set is *shared* with the nested parser
       set { outer with ps := inner.ps }
       pure r
-    let len := (← tapeLine).length
-    let res ← LR.run LR.realTables (lrHooks np) (64 * (len + 2) + 64)
+    let res ← LR.run LR.realTables (lrHooks np) 1073741824
     let store := (← get).store
     match res with
     | .accepted (.node n) _ _ _ => pure (some (resolve store n))
